@@ -23,6 +23,7 @@ again.  Proved instead: the statement under `NoWrap ins` (no input carries the
 time 2^64−1) and the negation witness at 2^64−1.
 -/
 import SerfProofs.Lemmas.EventBuf
+import SerfModel.Gen.BufLocks
 namespace SerfProofs.C05
 open SerfModel.Atomic SerfModel.EventBuf SerfProofs.EventBuf
 
@@ -376,5 +377,12 @@ theorem C05_at_most_once_counterexample :
 theorem C05_counterexample_deliveries :
     deliveries (α := Nat) (Buf.init 2) [.gossip 1#64 0, .gossip (BitVec.allOnes 64) 1, .gossip 1#64 0]
       = [(1#64, 0), (BitVec.allOnes 64, 1), (1#64, 0)] := by decide
+
+
+/-- Source-tied obligation: `handleUserEvent` runs its whole check-and-record section under the exclusive
+`eventLock` (first lock call is `Lock`, the unlock is deferred, the mutex is not touched again and the buffer is
+not read before it).  This is what makes `handle` ONE atomic action, so that concurrent deliveries of the same
+event (gossip and push/pull at the same moment) are covered by the sequential theorems above. -/
+theorem C05_handler_holds_lock : SerfModel.Gen.BufLocks.handleUserEvent.wholeBodyExclusive = true := by decide
 
 end SerfProofs.C05
